@@ -208,6 +208,11 @@ class Check(DiffCheck):
         subs = [o for t in threads for o in t if o[0] in ('wp_call', 'wp_async')]
         return len(subs) > cap or any(len(o[1]) > 2 for o in subs)
 
+    def impl_env(self):
+        e = DiffCheck.impl_env(self)
+        e['E2_TIMEOUT_MS'] = '180000'      # real-time guard only (a livelocked case); generous: the machine may be loaded
+        return e
+
     def oracle(self, case, impl_out):
         if not case.startswith('P'):
             return None
@@ -218,6 +223,91 @@ class Check(DiffCheck):
             return case[:1]
         decls, _ = e2lib.parse_case(case)
         return 'mode=%d ring=%d' % (decls[0][1][0], ring_capacity(decls[0][1][1]))
+
+    # ------------------------------------------------------------------ extra engines -----
+    def gen_mt(self, tier, rng):
+        cases = ['M -1 1 1 0 1 1 2 12 1', 'M 0 2 2 1 2 1 3 20 2', 'M 3 1 1 1 1 2 2 15 3', 'M 0 64 3 0 3 0 1 40 4', 'M -1 2 3 1 0 2 4 10 5']
+        n = 6 if tier == 'quick' else 60
+        for _ in range(n):
+            mode = rng.choice([-1, 0, 0, 1, 2, 4])
+            ring = rng.choice([1, 2, 2, 4, 8, 64, 1024])
+            nworkers = rng.randint(1, 4)
+            joiner = rng.choice([0, 0, 1])
+            nstd = rng.randint(0, 3)
+            npos = rng.randint(0 if nstd else 1, 2)
+            pper = rng.randint(1, 4)
+            each = rng.choice([5, 10, 20, 40])
+            cases.append('M %d %d %d %d %d %d %d %d %d' % (mode, ring, nworkers, joiner, nstd, npos, pper, each, rng.randrange(1 << 30)))
+        return cases
+
+    @staticmethod
+    def mt_oracle(case, out):
+        m = re.match(r'^n=(\d+) unfinished_at_destroy=(\d+) bad=(\S+)$', (out or '').strip())
+        if not m:
+            return 'multi-thread run failed: %r' % (out or '')[:300]
+        if m.group(2) != '0':
+            return '~WorkPool returned while %s accepted tasks had not finished' % m.group(2)
+        if m.group(3) != '-':
+            return 'tasks not run exactly once / call() returned early / wrong delete count (id kind:runs.fin.del.flag): ' + m.group(3)[:300]
+        return None
+
+    def extra(self, ctx):
+        out = []
+        cov = self.extra_coverage = {}
+        tmp = ctx['tmp']
+        # (a) the refutation witnesses and a sample run through the EXTRACTED step function of C08_Model
+        a_cases = [
+            ('A 0 4 1 0 1 | submit:1 intr:0', 'tasks=0.0.0.0.1 badcopy=0 uaf=0 badcount=0 ringuaf=0 destroyed=0'),
+            ('A 0 4 1 0 1 | submit:1 intr:0 recv:0 dispatch:0 yieldto:0 copy:0 start:0', 'tasks=1.0.0.0.1 badcopy=0 uaf=1 badcount=0 ringuaf=0 destroyed=0'),
+            ('A 0 4 0 0 0 | submit:0 dbegin dfinal', 'tasks=0.0.0.0.0 badcopy=0 uaf=0 badcount=0 ringuaf=0 destroyed=1'),
+            ('A 0 4 1 0 0 | submit:1 recv:0 dispatch:0 recv:0', 'REJECT@3'),
+            ('A 0 2 1 0 0 | submit:1 submit:0 recv:0 dispatch:0 yieldto:0 copy:0 start:0 yield:0:- dbegin recv:0 dispatch:0 yieldto:0 copy:1 start:1 '
+             'finish:1 delete:1 dec:1:0 finish:0 signal:0 dec:0:- return:0 dpush recv:0 stop:0 drained:0 dfinal',
+             'tasks=1.1.0.1.1,1.1.1.0.0 badcopy=0 uaf=0 badcount=0 ringuaf=0 destroyed=1'),
+        ]
+        if ctx.get('model_exe'):
+            got = run_cases(ctx['model_exe'], [c for c, _ in a_cases], tmp, 'amodel', nshards=1, timeout=120)
+            for (c, want), g in zip(a_cases, got):
+                if (g or '').strip() != want:
+                    out.append(dict(kind='correspondence', message='extracted C08_Model.step disagrees with the proved witness: got %r want %r' % (g, want), case=c))
+            cov['model_A_witness_replays'] = len(a_cases)
+        # (b) finding C08-F1: ESHUTDOWN / ETIMEDOUT interrupt to a caller blocked in call()
+        if ctx.get('impl_exe'):
+            wit = [F1_WITNESS, F1_WITNESS.replace('interrupt 2 108', 'interrupt 2 110')]
+            got = run_cases(ctx['impl_exe'], wit, tmp, 'f1', nshards=1, timeout=900, env=self.impl_env())
+            repro = [(c, g) for c, g in zip(wit, got) if analyse(c, (g or '').strip())]
+            listed = {f.get('status') for f in load_known_findings(self.id) if 'ESHUTDOWN' in f.get('what', '') or f.get('id') in ('C08-F1', 'F20')}
+            pending = os.path.exists(PENDING)
+            cov['finding_C08_F1_reproduced'] = bool(repro)
+            if repro:
+                c, g = repro[0]
+                msg = ('call() returned before its task finished: the caller was interrupted with ESHUTDOWN/ETIMEDOUT (semaphore::wait gives up, '
+                       'do_call ignores suspend()): ' + (analyse(c, (g or '').strip()) or ''))
+                if 'known' in listed:
+                    pass                                     # DiffCheck.main prints the KNOWN-FINDING line of a listed finding
+                elif pending and 'fixed' not in listed:
+                    print('KNOWN-FINDING: property=C08 (pending listing, checks/C08_pending_findings.json) ' + msg[:300])
+                else:
+                    out.append(dict(kind='oracle', message=msg, case=c, impl_out=g))
+        # (c) the uncontrolled multi-OS-thread oracle run (ASan)
+        exe, log = cxx_build(self.id, ['harness/C08/mt_oracle.cpp'], asan=True, libphoton=True, out=os.path.join(BUILD, 'bin', 'C08_mt'))
+        if not exe:
+            out.append(dict(kind='build', message='mt_oracle does not build: ' + log[-1500:], case=None))
+            return out
+        mt = self.gen_mt(ctx['tier'], ctx['rng'])
+        env = DiffCheck.impl_env(self)
+        got = run_cases(exe, mt, tmp, 'mt', nshards=min(len(mt), 6), timeout=3000, env=env)
+        ntasks = 0
+        for c, g in zip(mt, got):
+            o = self.mt_oracle(c, g)
+            m = re.match(r'^n=(\d+)', (g or ''))
+            ntasks += int(m.group(1)) if m else 0
+            if o:
+                out.append(dict(kind='oracle', message='multi-thread oracle: ' + o, case=c, impl_out=g))
+                break
+        cov['mt_oracle_runs'] = len(mt)
+        cov['mt_oracle_tasks'] = ntasks
+        return out
 
 
 if __name__ == '__main__':
